@@ -38,7 +38,7 @@ func (c rCard) build() vcard.Card {
 
 var c07Tests = []carddav.FilterTest{"", carddav.FilterAnyOf, carddav.FilterAllOf, "bogus", "AllOf", "ANYOF"}
 var c07Types = []carddav.MatchType{"", carddav.MatchEquals, carddav.MatchContains, carddav.MatchStartsWith, carddav.MatchEndsWith, "bogus", "Equals"}
-var c07Texts = []string{"alice", "ali", ".com", "bob", ""}
+var c07Texts = []string{"alice", "ali", ".com", "bob", "", "ali ", "\tbob"}
 var c07Values = []string{"alice", "alice@example.com", "bob", ""}
 
 func c07Cards() []rCard {
@@ -481,7 +481,7 @@ func c07Run(r *engine.Run) {
 	full := thorough(r)
 	cards := c07Cards()
 	pfs := c07PropFilters(full)
-	r.Rule = "Match: every query = outer test{'',anyof,allof,bogus} x 0..2 prop-filters, each name{FN,EMAIL,X-NONE} x [is-not-defined | inner test x 0..1 (thorough 0..2) text-matches over 5 texts x 6 match types (incl. bogus) x negate], on every card with FN/EMAIL each absent or one of 4 values (25 cards); pairs of prop-filters over a strided subset (quick) / denser subset (thorough). Filter: every ordered list of 0..4 cards from a 4-card pool x Limit{-1..5} x DataRequest{none,AllProp, every subset of {FN,EMAIL,X-NONE}} x representative queries. Non-trivial = the query's verdict differs across cards (Match) / at least one card matches (Filter); distinct by (query, card)."
+	r.Rule = "Match: every query = outer test{'',anyof,allof,bogus} x 0..2 prop-filters, each name{FN,EMAIL,X-NONE} x [is-not-defined | inner test x 0..1 (thorough 0..2) text-matches over 7 texts (two with leading or trailing white space) x 6 match types (incl. bogus) x negate], on every card with FN/EMAIL each absent or one of 4 values (25 cards); pairs of prop-filters over a strided subset (quick) / denser subset (thorough). Filter: every ordered list of 0..4 cards from a 4-card pool x Limit{-1..5} x DataRequest{none,AllProp, every subset of {FN,EMAIL,X-NONE}} x representative queries. Non-trivial = the query's verdict differs across cards (Match) / at least one card matches (Filter); distinct by (query, card)."
 	r.Explanation = "carddav.Match and carddav.Filter run on every generated case and are compared with a three-valued RFC 6352 reference (unknown enumeration => error required unless the verdict is the same either way); arguments are deep-compared before/after"
 	r.Assumptions = []string{"one instance per property (multi-instance is a code TODO outside the statement)", "param-filters are not part of matching in the statement"}
 	r.Extra["prop_filters"] = len(pfs)
